@@ -116,6 +116,10 @@ func (P *Program) sweep() (findings []sweepFinding, mapRanges []string, nfuncs i
 							findings = append(findings, sweepFinding{"map-range-without-determinacy-contract", name, site + ": range over a map, and the function's contract has no 'option det=' justification"})
 						}
 					}
+				case *ssa.MapUpdate:
+					if g := globalBehind(x.Map); g != nil && f.Name() != "init" {
+						findings = append(findings, sweepFinding{"store-to-package-variable", name, "updates the package-level map " + g.Name()})
+					}
 				case *ssa.Store:
 					if g, ok := x.Addr.(*ssa.Global); ok && f.Name() != "init" {
 						findings = append(findings, sweepFinding{"store-to-package-variable", name, "writes package-level variable " + g.Name()})
@@ -131,6 +135,27 @@ func (P *Program) sweep() (findings []sweepFinding, mapRanges []string, nfuncs i
 				case ssa.CallInstruction:
 					if callee := x.Common().StaticCallee(); callee != nil && callee.Pkg != nil {
 						full := callee.Pkg.Pkg.Path() + "." + callee.Name()
+						if callee.Name() == "unsafeString" && P.inRepo(callee) {
+							// the string aliases the byte slice (the reader's
+							// buffer): it may only be handed to a parser, never
+							// stored or returned
+							if v, ok := x.(ssa.Value); ok && v.Referrers() != nil {
+								for _, r := range *v.Referrers() {
+									okUse := false
+									if ci, ok := r.(ssa.CallInstruction); ok {
+										if c2 := ci.Common().StaticCallee(); c2 != nil && c2.Pkg != nil && c2.Pkg.Pkg.Path() == "strconv" {
+											okUse = true
+										}
+									}
+									if _, ok := r.(*ssa.DebugRef); ok {
+										okUse = true
+									}
+									if !okUse {
+										findings = append(findings, sweepFinding{"unsafe-string-escapes", name, "the result of unsafeString is used by something other than a strconv call: it aliases the read buffer"})
+									}
+								}
+							}
+						}
 						switch {
 						case full == "time.Now":
 							if name != "toHTML" {
@@ -180,8 +205,12 @@ func (P *Program) sweepObligations() []*Obligation {
 	for _, site := range ranges {
 		obs = append(obs, &Obligation{Name: "sweep/map-range-has-determinacy-contract:" + site, Class: "det", Props: []string{"C06"}, Func: site, static: true, staticFail: bySite[site]})
 	}
-	for _, kind := range []string{"store-to-package-variable", "store-into-package-slice", "select", "goroutine", "pointer-to-integer", "clock", "random"} {
-		obs = append(obs, &Obligation{Name: fmt.Sprintf("sweep/no-%s", kind), Class: "det", Props: []string{"C06", "C14"}, Func: fmt.Sprintf("%d reachable functions", n), static: true, staticFail: strings.Join(other[kind], "; ")})
+	for _, kind := range []string{"store-to-package-variable", "store-into-package-slice", "select", "goroutine", "pointer-to-integer", "clock", "random", "unsafe-string-escapes"} {
+		props := []string{"C06", "C14"}
+		if kind == "unsafe-string-escapes" {
+			props = []string{"C01", "C08", "C09", "C14"}
+		}
+		obs = append(obs, &Obligation{Name: fmt.Sprintf("sweep/no-%s", kind), Class: "det", Props: props, Func: fmt.Sprintf("%d reachable functions", n), static: true, staticFail: strings.Join(other[kind], "; ")})
 	}
 	return obs
 }
@@ -262,4 +291,26 @@ func (P *Program) patternObligations() []*Obligation {
 		obs = append(obs, &Obligation{Name: "sweep/literal-unchanged:" + n, Class: "det", Props: []string{"C01", "C02", "C03", "C07", "C08", "C17", "C18"}, Func: n, static: true, staticFail: fail})
 	}
 	return obs
+}
+
+// globalBehind follows loads, field and index addresses back to a package-level
+// variable, if the value comes from one.
+func globalBehind(v ssa.Value) *ssa.Global {
+	for i := 0; i < 8; i++ {
+		switch x := v.(type) {
+		case *ssa.Global:
+			return x
+		case *ssa.UnOp:
+			v = x.X
+		case *ssa.FieldAddr:
+			v = x.X
+		case *ssa.IndexAddr:
+			v = x.X
+		case *ssa.Field:
+			v = x.X
+		default:
+			return nil
+		}
+	}
+	return nil
 }
